@@ -217,3 +217,49 @@ Proof.
   - now rewrite B.
   - now rewrite G.
 Qed.
+
+(** ** an accepted edit of a space discards every instance that holds a copy of it
+    (DynamicBase.on_namespace_change -> clear_subs_rootitems; set_cells_property / new_cells) *)
+Definition edited_space (o : op) : option path :=
+  match o with
+  | OSetFormula p _ _ | ONewCells p _ _ | ODelCells p _ | OSetRef p _ _ | ODelRef p _ | OSetParams p _ => Some p
+  | ONewSpace q _ | ODelSpace q => Some (parent_of q)
+  | _ => None
+  end.
+
+Lemma del_where_dynsub : forall (f : inst -> bool) p l r,
+  (forall r0, has_dynsub p r0 = true -> f r0 = true) -> In r (del_where f l) -> has_dynsub p r = false.
+Proof.
+  intros f p l r Hf H. apply del_where_self in H.
+  destruct (has_dynsub p r) eqn:E; [|reflexivity]. rewrite (Hf r E) in H. discriminate.
+Qed.
+
+Theorem edit_discards : forall fuel st o p st' r,
+  edited_space o = Some p -> step fuel st o = (st', ODone) -> In r (st_live st') -> has_dynsub p r = false.
+Proof.
+  intros fuel st o p st' r He Hs Hr. destruct o; cbn [edited_space] in He; try discriminate; inversion He; subst; unfold step in Hs.
+  - destruct (dlookup p (st_defs st)) as [n|]; [|inversion Hs].
+    destruct (amem c (sn_cells n)); inversion Hs; subst. cbn [edit st_live] in Hr.
+    eapply del_where_dynsub; [|exact Hr]. auto.
+  - destruct (dlookup p (st_defs st)) as [n|]; [|inversion Hs].
+    destruct (name_free n (st_defs st) p c); inversion Hs; subst. cbn [edit st_live] in Hr.
+    eapply del_where_dynsub; [|exact Hr]. intros r0 H. cbv beta. rewrite H. apply orb_true_r.
+  - destruct (dlookup p (st_defs st)) as [n|]; [|inversion Hs].
+    destruct (amem c (sn_cells n)); inversion Hs; subst. cbn [edit st_live] in Hr.
+    eapply del_where_dynsub; [|exact Hr]. intros r0 H. cbv beta. rewrite H. apply orb_true_r.
+  - destruct (dlookup p (st_defs st)) as [n|]; [|inversion Hs].
+    destruct (amem x (sn_cells n) || dmem (p ++ [x]) (st_defs st)); inversion Hs; subst. cbn [edit st_live] in Hr.
+    eapply del_where_dynsub; [|exact Hr]. intros r0 H. cbv beta. rewrite H. apply orb_true_r.
+  - destruct (dlookup p (st_defs st)) as [n|]; [|inversion Hs].
+    destruct (amem x (sn_refs n)); inversion Hs; subst. cbn [edit st_live] in Hr.
+    eapply del_where_dynsub; [|exact Hr]. intros r0 H. cbv beta. rewrite H. apply orb_true_r.
+  - destruct q as [|q0 q']; [inversion Hs|].
+    destruct (existsb (fun e => is_prefix (q0 :: q') (fst e)) (st_defs st)); [inversion Hs|].
+    destruct (parent_free (st_defs st) (parent_of (q0 :: q')) (last (q0 :: q') EmptyString)); inversion Hs; subst.
+    cbn [edit st_live] in Hr.
+    eapply del_where_dynsub; [|exact Hr]. intros r0 H. cbv beta. apply orb_true_iff. right. exact H.
+  - destruct (dmem q (st_defs st)); inversion Hs; subst. cbn [edit st_live] in Hr.
+    eapply del_where_dynsub; [|exact Hr]. intros r0 H. cbv beta. rewrite H. apply orb_true_r.
+  - destruct (dlookup p (st_defs st)) as [n|]; inversion Hs; subst. cbn [edit st_live] in Hr.
+    eapply del_where_dynsub; [|exact Hr]. intros r0 H. cbv beta. rewrite H. apply orb_true_r.
+Qed.
